@@ -304,7 +304,10 @@ func (g *G) lineDCs(c int, p Profile, feats map[string]bool, charge bool) []any 
 	}
 	var out []any
 	for i := 0; i < n; i++ {
-		d := map[string]any{"reason": "generated"}
+		d := map[string]any{}
+		if g.rng.IntN(3) > 0 {
+			d["reason"] = "generated" // (a row given by its figures alone is a row too)
+		}
 		switch k := g.rng.IntN(10); {
 		case k < 4:
 			d["percent"] = g.percent()
@@ -354,7 +357,10 @@ func (g *G) docDCs(c int, p Profile, specs []comboSpec, feats map[string]bool, p
 	}
 	var out []any
 	for i := 0; i < n; i++ {
-		d := map[string]any{"reason": "generated"}
+		d := map[string]any{}
+		if g.rng.IntN(3) > 0 {
+			d["reason"] = "generated" // (a row given by its figures alone is a row too)
+		}
 		switch k := g.rng.IntN(3); k {
 		case 0:
 			d["percent"] = g.percent()
